@@ -592,6 +592,11 @@ class Recon:
             b = self._e(ctx, v.args[1], d.node, binds, False, depth + 1)
             return S.op("floordiv" if path[0] == 0 else "mod", a, b)
         base = self._e(ctx, v, d.node, binds, False, depth + 1)
+        return self._index_path(base, path, depth)
+
+    def _index_path(self, base, path, depth=0):
+        if base[0] == "ite" and depth < MAX_DEPTH and path:
+            return ("ite", base[1], self._index_path(base[2], path, depth + 1), self._index_path(base[3], path, depth + 1))
         for i in path:
             if base[0] in ("tuple", "list") and isinstance(i, int) and i < len(base[1]):
                 base = base[1][i]
@@ -1044,6 +1049,10 @@ class Recon:
         return self._call_value(ctx, node, f, args, kws, depth)
 
     def _method_call(self, ctx: FuncCtx, node: ast.Call, recv, name: str, args, kws, depth):
+        if recv[0] == "ite" and depth < MAX_DEPTH and all(a == S.C(None) or (a[0] == "call" and a[1].startswith("ext:")) for a in S.alternatives(recv)):
+            # a method of an object chosen by a condition (a Struct / helper object picked from a table)
+            return ("ite", recv[1], self._method_call(ctx, node, recv[2], name, args, kws, depth + 1),
+                    self._method_call(ctx, node, recv[3], name, args, kws, depth + 1))
         if name in ("unpack", "unpack_from", "pack", "iter_unpack") and recv[0] == "call" and recv[1] == "ext:struct.Struct" and len(recv[2]) == 1 and not kws:
             return S.call("ext:struct." + name, [recv[2][0]] + list(args))  # Struct(fmt).unpack(data) is struct.unpack(fmt, data)
         if name == "digest" and not args and not kws and recv[0] == "call" and recv[1] == "ext:hmac.new" and len(recv[2]) == 3:
@@ -1122,6 +1131,15 @@ class Recon:
             return S.call("." + fn.attr, [recv] + args, kws)
 
     def _call_value(self, ctx: FuncCtx, node: ast.Call, f, args, kws, depth):
+        if f[0] == "ite" and depth < MAX_DEPTH:
+            return ("ite", f[1], self._call_value(ctx, node, f[2], args, kws, depth + 1), self._call_value(ctx, node, f[3], args, kws, depth + 1))
+        if f[0] == "call" and f[1] == "ext:operator.attrgetter" and len(f[2]) == 1 and S.is_const(f[2][0]) and isinstance(f[2][0][1], str) and len(args) == 1 and not kws \
+                and "." not in f[2][0][1]:
+            return self.attr(args[0], f[2][0][1], ctx, depth + 1)  # attrgetter("x")(obj) is obj.x
+        if f[0] == "call" and f[1] == "ext:operator.itemgetter" and len(f[2]) == 1 and len(args) == 1 and not kws:
+            return self.subscript(args[0], f[2][0], ctx, depth + 1)
+        if f[0] == "call" and f[1] == "ext:operator.methodcaller" and f[2] and S.is_const(f[2][0]) and isinstance(f[2][0][1], str) and len(args) == 1 and not kws:
+            return self._method_call(ctx, node, args[0], f[2][0][1], list(f[2][1:]), dict(f[3]), depth + 1)
         if f[0] == "func":
             nm = f[1]
             if nm.startswith("builtin:"):
